@@ -157,9 +157,27 @@ def run(ctx, out):
                         sg.add((s, SH.property, pp)); sg.add((pp, RDF.type, SH.PropertyShape)); sg.add((pp, SH.path, PREDS[0]))
                         sg.add((pp, SH["not"], leaf2))
                 plan.append(("wide", lim, 2, sg, dg, False))
+    # cyclic DATA under path closures: self-loops on the focus node, 2- and 3-cycles, with every closure form
+    import pathgen
+    closures = [a for a in pathgen.enum_paths(PREDS[:1], 2) if any(t in repr(a) for t in ("star", "plus"))]
+    closures = closures if not quick else rng.sample(closures, min(len(closures), 24)) + [("plus", ("p", PREDS[0])), ("star", ("p", PREDS[0])), ("inv", ("plus", ("p", PREDS[0])))]
+    for a in closures:
+        for shape_of_data in range(3):
+            sg = Graph(); dg = Graph()
+            ps = EX.PL
+            sg.add((ps, RDF.type, SH.PropertyShape)); sg.add((ps, SH.targetNode, NODES[0])); sg.add((ps, SH.path, pathgen.encode(sg, a)))
+            sg.add((ps, SH["class"], CLASSES[0]))
+            if shape_of_data == 0:
+                dg.add((NODES[0], PREDS[0], NODES[0]))                              # self-loop on the focus node
+            elif shape_of_data == 1:
+                dg.add((NODES[0], PREDS[0], NODES[1])); dg.add((NODES[1], PREDS[0], NODES[0])); dg.add((NODES[1], PREDS[0], NODES[1]))
+            else:
+                dg.add((NODES[0], PREDS[0], NODES[1])); dg.add((NODES[1], PREDS[0], NODES[2])); dg.add((NODES[2], PREDS[0], NODES[0]))
+                dg.add((NODES[2], RDF.type, CLASSES[0]))
+            plan.append(("pathloop", 15, 1, sg, dg, False))
     out.rule = ("reference graphs: chains and diamonds through node/not/or/and/xone/property/qualifiedValueShape of depth d around every "
                 "limit (d in {1, L-1, L, L+1, ~2L}) for max_validation_depth L in 1..30 (quick: 7 limits), self-loops and mutual recursion, "
-                "cyclic data; non-trivial = distinct case that reaches nesting depth >= 2 (report or too-deep error)")
+                "cyclic data, incl. self-loops and cycles under every path closure form (wall-clock limit 20 s); non-trivial = distinct case that reaches nesting depth >= 2 (report or too-deep error)")
     lines = [vcase.model_line("c%d" % k, sg, dg, {"max_validation_depth": lim}) for k, (_kind, lim, d, sg, dg, _rec) in enumerate(plan)]
     replies = ctx.driver.ask(lines)
     signal.signal(signal.SIGALRM, _alarm)
@@ -168,7 +186,7 @@ def run(ctx, out):
         out.traces += 1
         opts = {"max_validation_depth": lim}
         case = vcase.describe(sg, dg, opts, kind=kind, depth=d)
-        signal.alarm(240)
+        signal.alarm(240 if kind != "pathloop" else 20)
         try:
             code = vcase.run_code(sg, dg, opts)
         except Timeout:
